@@ -146,15 +146,23 @@ pub fn run() {
                     Ok(s) => b == s,
                     Err(_) => true,
                 };
+                // near misses around line ends: a &str that differs only by a CR before a LF, by a trailing CR, by an added CR
+                let near_s = match std::str::from_utf8(&copy) {
+                    Ok(s) => [s.replace("\r\n", "\n"), s.strip_suffix('\r').unwrap_or(s).to_string(), format!("{s}\r"), s.replace('\n', "\r\n")]
+                        .iter()
+                        .any(|t| t.as_str() != s && b == t.as_str()),
+                    Err(_) => false,
+                };
                 writeln!(
                     out,
-                    "{} {} {} {}{}{}",
+                    "{} {} {} {}{}{}{}",
                     hex(&sink.log),
                     res_str(r),
                     hex(&copy),
                     eq_b as u8,
                     ne_b as u8,
-                    eq_s as u8
+                    eq_s as u8,
+                    near_s as u8
                 )
                 .unwrap()
             }
